@@ -113,7 +113,9 @@ def _ob_fm(op):
 
         def is_refund(m):
             (c, mode, mid, kind, sub) = m
-            return op in CLOSING_OPS and mode == 'Error' and mid == 1 and kind == 'Bank' and sub == 'Send'
+            # in this world no farm has expired, so creating a farm closes none: only the manual close has a refund to tolerate
+            # (the automatic close on creation is F3's subject)
+            return op == 'close_farm' and mode == 'Error' and mid == 1 and kind == 'Bank' and sub == 'Send'
         for m in ch.submsgs:
             # reply-never and reply-on-success cannot swallow a failure; reply-on-error / always is tolerated for the farm-closing refund only
             I.check('farm_manager_reply_modes', m[1] in ('Never', 'Success') or is_refund(m))
@@ -137,7 +139,9 @@ def _replay_fm_fault(op):
         if m.get('_choices', {}).get('fault_at', 0) != 0 and idx == 0:
             raise ValueError('the injected failure is not a bank transfer: not reproducible by the fault-injecting bank')
         if idx:
-            d['pre_tx_steps'] = [{'op': 'fail_send_number', 'n': idx}]
+            # natively the funds attached to the message reach the contract through a bank transfer of their own, which comes first
+            shift = 1 if any(int(a) > 0 for _, a in d['txs'][-1][2]) else 0
+            d['pre_tx_steps'] = [{'op': 'fail_send_number', 'n': idx + shift}]
         return d
     return fm_replay(build)
 
